@@ -48,6 +48,14 @@ def generate(seed, tier):
         for b in range(a, K):
             if a == b or not assortative:
                 w[a][b] = w[b][a] = round(0.05 + rng.random(), 3)
+    prior_arrays = None
+    if rng.random() < 0.2:
+        # entry-wise prior rates: a symmetric (K, K) array for w, an (N, K) array for u
+        wp = [[0.0] * K for _ in range(K)]
+        for a in range(K):
+            for b in range(a, K):
+                wp[a][b] = wp[b][a] = round(0.5 + 1.5 * rng.random(), 3)
+        prior_arrays = {"w": wp, "u": [[round(0.5 + 1.5 * rng.random(), 3) for _ in range(K)] for _ in range(N)] if rng.random() < 0.5 else None}
     if rng.random() < 0.12:
         # a valid but badly scaled parametrisation: one community's memberships are tiny but strictly positive
         k = rng.randrange(K)
@@ -56,7 +64,7 @@ def generate(seed, tier):
         supply = "both"
     return {"seed": seed, "q": rng.choice([0.0, 0.2]), "N": N, "K": K, "D": D, "spec": spec, "weighted": weighted,
             "weights": weights, "assortative": assortative, "supply": supply, "u": u, "w": w,
-            "w_prior": rng.choice([0.0, 0.0, 1.0, 0.5]), "u_prior": rng.choice([0.0, 0.0, 1.0]),
+            "w_prior": rng.choice([0.0, 0.0, 1.0, 0.5]), "u_prior": rng.choice([0.0, 0.0, 1.0]), "prior_arrays": prior_arrays,
             "explicit_D": rng.random() < 0.7, "sut_seed": rng.randint(0, 10**6),
             "tolerance": rng.choice([None, None, 1e-3, 0.1, 1.0]), "check_every": rng.choice([1, 2, 3, 10]),
             "n_iter": rng.randint(2, 12 if tier == "quick" else 40),
@@ -208,10 +216,15 @@ def _fit(case, n_iter, h=None):
     u_in = None if u0 is None else u0.copy()
     w_in = None if w0 is None else w0.copy()
     fac = Facade(case["seed"], q=case["q"])
+    w_prior, u_prior = case["w_prior"], case["u_prior"]
+    if case.get("prior_arrays"):
+        w_prior = np.array(case["prior_arrays"]["w"], dtype=float)
+        if case["prior_arrays"].get("u") is not None:
+            u_prior = np.array(case["prior_arrays"]["u"], dtype=float)
     with fac:
         model = HyMMSBM(K=K, u=u_in, w=w_in, assortative=case["assortative"],
                         max_hye_size=D if case["explicit_D"] else None,
-                        u_prior=case["u_prior"], w_prior=case["w_prior"], seed=case["sut_seed"])
+                        u_prior=u_prior, w_prior=w_prior, seed=case["sut_seed"])
         if case.get("tolerance") is not None:
             model.fit(h, n_iter=n_iter, tolerance=case["tolerance"], check_convergence_every=case.get("check_every", 10))
         else:
@@ -282,7 +295,7 @@ def execute(case):
                 stats["free_param_changed"] += 1
             prev_params = params
             traj.append(params)
-            if case["supply"] == "u" and case["w_prior"] == 0.0:
+            if case["supply"] == "u" and case["w_prior"] == 0.0 and not case.get("prior_arrays"):
                 L = exact_loglik(u, w, N, D, data)
                 if prevL is not None and L < prevL - 1e-9 * max(1.0, abs(prevL)):
                     raise Violation("C15/fit/likelihood-decreased", {"previous": prevL, "now": L, **ctx})
